@@ -249,6 +249,12 @@ def run(chk, tier):
     chk.expect(ok_a, "preamble", "detect_preamble", "DICM@128->Always", "buflen >= 132 && buf[128..132] == DICM", a[0] if a else None, loc=C.fn_loc(hd))
     chk.expect(ok_n, "preamble", "detect_preamble", "DICM@0->Never", "buf[0..4] == DICM", n[0] if n else None, loc=C.fn_loc(hd))
     chk.expect(a is not None and n is not None and a[2][1] < n[2][1], "preamble", "detect_preamble", "order", "the 128-offset test comes first", "ok")
+
+    def ops_of(c):
+        return sorted(y[2] for y in H.walk(c) if H.kind(y) == "bin")
+    # the operators themselves: `>=` and `==` joined by `&&` for the 128-offset test, a lone `==` for the 0-offset test
+    chk.expect(a is not None and ops_of(a[2][2]) == ["And", "Eq", "Ge"], "preamble", "detect_preamble", "DICM@128->Always/operators", ["And", "Eq", "Ge"], ops_of(a[2][2]) if a else None, loc=C.fn_loc(hd))
+    chk.expect(n is not None and ops_of(n[2][2]) == ["Eq"], "preamble", "detect_preamble", "DICM@0->Never/operators", ["Eq"], ops_of(n[2][2]) if n else None, loc=C.fn_loc(hd))
     for fn in ("open_file_with_all_options", "from_reader_with_all_options"):
         h = fx.hirfn(f"{FDO}::{fn}")
         skips = []
@@ -261,6 +267,12 @@ def run(chk, tier):
         chk.expect(ok, "preamble", fn, "skip-128-iff-preamble", "read_exact of [u8;128] under read_preamble == Always (never for Never)", skips, loc=C.fn_loc(h))
         det = [x for c, x in H.calls(h["body"]) if c and c.endswith("::detect_preamble")]
         chk.expect(len(det) == 1, "preamble", fn, "auto-detects", "calls detect_preamble when Auto", len(det))
+        # every test on the option is an equality (`==`), alternatives are joined by `||`; detection runs exactly under `== Auto`
+        pre_ifs = [x for x in H.walk(h["body"]) if H.kind(x) == "if" and "ReadPreamble::" in H.show(x[2], 8)]
+        shapes = [(sorted(set(re.findall(r"ReadPreamble::(\w+)", H.show(x[2], 8)))), sorted(set(y[2] for y in H.walk(x[2]) if H.kind(y) == "bin")),
+                   any((c or "").endswith("::detect_preamble") for c, _ in H.calls(x[3]))) for x in pre_ifs]
+        ok = all(ops in (["Eq"], ["Eq", "Or"]) for _, ops, _ in shapes) and [v for v, _, d in shapes if d] == [["Auto"]]
+        chk.expect(ok, "preamble", fn, "option-tests-are-equalities", "`read_preamble == X` (|| ...); detect_preamble under `== Auto`", shapes, loc=C.fn_loc(h))
     for fn in ("write_to_file", "write_all"):
         h = fx.hirfn(f"dicom_object::FileDicomObject::<O>::{fn}")
         seq = []
@@ -283,5 +295,19 @@ def run(chk, tier):
              "(it speaks of files written with or without the preamble), recorded here, not a violation")
     from . import shared
     shared.meta_order_ascending(chk, fx, "meta-order-ascending")
+    # the two helpers every term of the group length goes through: dicom_len(x) = len rounded up to even, padded(s) appends one pad
+    # character exactly when the length is odd
+    chk.rule("even-helpers", "meta::dicom_len is (len + 1) & !1 and meta::padded pushes the pad character iff len % 2 == 1")
+    hdl = fx.hirfn("dicom_object::meta::dicom_len")
+    t = H.show(hdl["body"], 8)
+    n_ = r"\(?x\.as_ref\(\)\.len\(\)( as u32)?\)?"
+    even_forms = [rf"\{{?\(\({n_} Add 1\) BitAnd Not\(1\)\)\}}?", rf"\{{?\({n_} Add \({n_} (BitAnd|Rem) [12]\)\)\}}?", rf"\{{?{n_}\.next_multiple_of\(2\)( as u32)?\}}?"]
+    chk.expect(any(re.fullmatch(f_, t) for f_ in even_forms), "even-helpers", "dicom_len", "formula", "(len as u32 + 1) & !1", t, loc=C.fn_loc(hdl))
+    hpd = fx.hirfn("dicom_object::meta::padded")
+    ifs = [x for x in H.walk(hpd["body"]) if H.kind(x) == "if"]
+    odd_forms = {"((s.len() Rem 2) Eq 1)", "((s.len() Rem 2) Ne 0)", "((s.len() BitAnd 1) Eq 1)", "((s.len() BitAnd 1) Ne 0)", "Not(s.len().is_multiple_of(2))"}
+    ok = len(ifs) == 1 and H.show(ifs[0][2], 6) in odd_forms and ifs[0][4] is None and [y[3] for y in H.walk(ifs[0][3]) if H.kind(y) == "mcall"] == ["push"] \
+        and H.show([y for y in H.walk(ifs[0][3]) if H.kind(y) == "mcall"][0][5][0], 3) == "pad"
+    chk.expect(ok, "even-helpers", "padded", "pads-iff-odd", "if s.len() % 2 == 1 { s.push(pad) }", [H.show(x[2], 6) for x in ifs], loc=C.fn_loc(hpd))
     shared.open_options_passthrough(chk, fx, "open-options-passthrough")
     chk.undecided.append("equality of the re-read table with the written one on concrete values")
